@@ -101,6 +101,12 @@ class Ctx:
                 if len(tail) == 2 and tail[0] in m.classes and tail[1] in m.classes[tail[0]].methods:
                     c = m.classes[tail[0]]
                     return c.methods[tail[1]], m, c
+                if len(tail) == 2 and tail[0] in m.classes:
+                    # inherited: the base's method, specialised for this class (self.<hook>() dispatches to its overrides)
+                    c = m.classes[tail[0]]
+                    k, fn = c.find_method(tail[1])
+                    if fn is not None:
+                        return fn, k.module, c
                 break
         raise AnalysisError(f"anchor vanished: {qual}")
 
